@@ -4,8 +4,11 @@
 package vsmtp
 
 import (
+	"bufio"
+	"fmt"
 	"io"
 	"net"
+	"strings"
 	"sync"
 
 	"github.com/emersion/go-smtp"
@@ -131,6 +134,8 @@ func FreePort() string {
 	return p
 }
 
+func NewScript() *Script { return &Script{RejectRcpt: map[string]int{}, LMTPStatus: map[string]int{}} }
+
 type Server struct {
 	Script *Script
 	srv    *smtp.Server
@@ -158,4 +163,145 @@ func Start(addr string, utf8, lmtp bool) (*Server, error) {
 	return &Server{Script: sc, srv: srv, l: l}, nil
 }
 
-func (s *Server) Close() { s.srv.Close() }
+func (s *Server) Close() {
+	if s.srv != nil {
+		s.srv.Close()
+	}
+}
+
+// RawLMTP is a hand-written LMTP responder used to misbehave in ways go-smtp's server cannot:
+// after the final dot it sends only the first SendStatuses per-recipient replies and then drops
+// the connection.
+type RawLMTP struct {
+	l            net.Listener
+	mu           sync.Mutex
+	SendStatuses int   // how many per-recipient replies to send before closing (-1 = all)
+	StatusCodes  []int // reply code per accepted recipient, in RCPT order (0/250 = ok)
+	StatusByKey  map[string]int // if non-nil: reply code per recipient lookup key (overrides StatusCodes)
+	UTF8         bool
+	RejectRcpt   map[string]int
+	Accepted     []string
+	Delivered    []string // recipients (as received) for which a 250 per-recipient reply was sent
+}
+
+// Set changes the script under the responder's lock.
+func (r *RawLMTP) Set(f func(*RawLMTP)) {
+	r.mu.Lock()
+	defer r.mu.Unlock()
+	f(r)
+}
+
+func StartRawLMTP(addr string) (*RawLMTP, error) {
+	l, err := net.Listen("tcp", addr)
+	if err != nil {
+		return nil, err
+	}
+	r := &RawLMTP{l: l, SendStatuses: -1, RejectRcpt: map[string]int{}}
+	go r.serve()
+	return r, nil
+}
+
+func (r *RawLMTP) Close() { r.l.Close() }
+
+func (r *RawLMTP) serve() {
+	for {
+		c, err := r.l.Accept()
+		if err != nil {
+			return
+		}
+		go r.handle(c)
+	}
+}
+
+func (r *RawLMTP) handle(c net.Conn) {
+	defer c.Close()
+	br := bufio.NewReader(c)
+	w := func(s string) { c.Write([]byte(s + "\r\n")) }
+	w("220 raw.example.invalid LMTP ready")
+	var accepted []string
+	for {
+		line, err := br.ReadString('\n')
+		if err != nil {
+			return
+		}
+		cmd := strings.ToUpper(strings.TrimSpace(line))
+		switch {
+		case strings.HasPrefix(cmd, "LHLO"):
+			w("250-raw.example.invalid")
+			if r.UTF8 {
+				w("250-SMTPUTF8")
+			}
+			w("250-ENHANCEDSTATUSCODES")
+			w("250 8BITMIME")
+		case strings.HasPrefix(cmd, "MAIL"):
+			accepted = nil
+			w("250 2.1.0 ok")
+		case strings.HasPrefix(cmd, "RCPT"):
+			a := strings.TrimSpace(line)
+			if i := strings.Index(a, "<"); i >= 0 {
+				a = a[i+1:]
+				if j := strings.Index(a, ">"); j >= 0 {
+					a = a[:j]
+				}
+			}
+			r.mu.Lock()
+			code := r.RejectRcpt[key(a)]
+			r.mu.Unlock()
+			if code != 0 {
+				w(fmt.Sprintf("%d %d.1.1 refused", code, code/100))
+			} else {
+				accepted = append(accepted, a)
+				w("250 2.1.5 ok")
+			}
+		case strings.HasPrefix(cmd, "DATA"):
+			w("354 go ahead")
+			for {
+				l, err := br.ReadString('\n')
+				if err != nil {
+					return
+				}
+				if l == ".\r\n" || l == ".\n" {
+					break
+				}
+			}
+			r.mu.Lock()
+			r.Accepted = append([]string{}, accepted...)
+			n := r.SendStatuses
+			codes := r.StatusCodes
+			if r.StatusByKey != nil {
+				codes = nil
+				for _, a := range accepted {
+					codes = append(codes, r.StatusByKey[key(a)])
+				}
+			}
+			r.mu.Unlock()
+			if n < 0 || n > len(accepted) {
+				n = len(accepted)
+			}
+			for i := 0; i < n; i++ {
+				code := 250
+				if i < len(codes) && codes[i] != 0 {
+					code = codes[i]
+				}
+				if code == 250 {
+					r.mu.Lock()
+					r.Delivered = append(r.Delivered, accepted[i])
+					r.mu.Unlock()
+					w("250 2.0.0 delivered")
+				} else {
+					w(fmt.Sprintf("%d %d.2.0 mailbox problem", code, code/100))
+				}
+			}
+			if n < len(accepted) {
+				return // drop the connection mid-way
+			}
+		case strings.HasPrefix(cmd, "RSET"), strings.HasPrefix(cmd, "NOOP"):
+			w("250 2.0.0 ok")
+		case strings.HasPrefix(cmd, "QUIT"):
+			w("221 2.0.0 bye")
+			return
+		default:
+			w("500 5.5.1 what")
+		}
+	}
+}
